@@ -564,6 +564,16 @@ fn c17_oracle(out: &mut Out, _w: &mut Worker, lk: &str, op: &str, rk: &str, l: &
     };
     let _ = (word_op, order);
     let input = serde_json::json!({"text": text, "answer": expr_ans});
+    // a version key against a wildcard literal: PEP 440 has `== X.*` / `!= X.*` with the key on the LEFT only;
+    // the reversed spelling and every other operator are not comparisons — reported (P) and dropped
+    {
+        let (key_left, lit) = if lk == "verkey" && rk == "quoted" { (true, r) } else if lk == "quoted" && rk == "verkey" { (false, l) } else { (true, "") };
+        if lit.contains(".*") && !word_op && (!key_left || !(op == "==" || op == "!=")) {
+            if !dropped { out.oracle_fail("C17", "a wildcard literal in a position PEP 440 does not define was kept instead of dropped", input.clone()); }
+            if !warns.contains('P') { out.oracle_fail("C17", &format!("a wildcard literal in a position PEP 440 does not define was not reported (warnings `{warns}`)"), input.clone()); }
+            out.stat("c17.wildcard_misplaced");
+        }
+    }
     if let Some(k) = expect {
         if !dropped {
             out.oracle_fail("C17", "an uninterpretable comparison was kept instead of dropped", input.clone());
